@@ -96,10 +96,10 @@ macro_rules! conv_set {
         });
     };
 }
-//@ harness name=aes128_from_enc_val prop=C12 tier=quick bits=256 stub=1 est=400 variants=aes:ni desc="Aes128::from(Aes128Enc::new(k)) (by value) encrypts and decrypts as FIPS-197 for all keys and blocks (inverse keys derived from the encryption keys), AES-NI arm"
-//@ harness name=aes128_from_enc_ref prop=C12 tier=quick bits=256 stub=1 est=500 variants=aes:ni desc="Aes128::from(&enc) encrypts/decrypts as FIPS-197 and leaves enc working; all keys and blocks"
-//@ harness name=aes128_dec_from_enc prop=C12 tier=quick bits=256 stub=1 est=400 variants=aes:ni desc="Aes128Dec::from(&enc) and Aes128Dec::from(enc) decrypt as FIPS-197; all keys and blocks"
-//@ harness name=aes128_clones prop=C12 tier=quick bits=256 stub=1 est=700 variants=aes:ni desc="clone of a converted Aes128, clone of Aes128Enc, clone of Aes128Dec compute FIPS-197 (hand-written Clone over the union arm selected by the token); all keys and blocks"
+//@ harness name=aes128_from_enc_val prop=C12 tier=quick bits=256 stub=1 variants=aes:ni est=105 desc="Aes128::from(Aes128Enc::new(k)) (by value) encrypts and decrypts as FIPS-197 for all keys and blocks (inverse keys derived from the encryption keys), AES-NI arm"
+//@ harness name=aes128_from_enc_ref prop=C12 tier=quick bits=256 stub=1 variants=aes:ni est=145 desc="Aes128::from(&enc) encrypts/decrypts as FIPS-197 and leaves enc working; all keys and blocks"
+//@ harness name=aes128_dec_from_enc prop=C12 tier=quick bits=256 stub=1 variants=aes:ni est=145 desc="Aes128Dec::from(&enc) and Aes128Dec::from(enc) decrypt as FIPS-197; all keys and blocks"
+//@ harness name=aes128_clones prop=C12 tier=thorough bits=256 stub=1 est=700 variants=aes:ni desc="clone of a converted Aes128, clone of Aes128Enc, clone of Aes128Dec compute FIPS-197 (hand-written Clone over the union arm selected by the token); all keys and blocks"
 conv_set!(aes128_from_enc_val, aes128_from_enc_ref, aes128_dec_from_enc, aes128_clones, crate::Aes128, crate::Aes128Enc, crate::Aes128Dec, 16);
 //@ harness name=aes192_from_enc_val prop=C12 tier=thorough bits=320 stub=1 est=500 variants=aes:ni desc="Aes192::from(Aes192Enc) conforms, all keys and blocks"
 //@ harness name=aes192_from_enc_ref prop=C12 tier=thorough bits=320 stub=1 est=600 variants=aes:ni desc="Aes192::from(&enc) conforms, all keys and blocks"
